@@ -23,7 +23,7 @@ CHECKS["C05"] = dict(level="exploration", engine="sweep",
 
 CHECKS["C02"] = dict(level="fault_enumeration", engine="sweep",
    technique="fault enumeration on the real Prio3 code: exhaustive invalid inputs x randomness over GF(17) with exact acceptance counting, invalid-encoding menu through an honest-proof Raw client, byte-level tamper enumeration of every message, verifier-share list manipulations",
-   text="(a) every invalid input x every randomness over GF(17) with exact acceptance counts vs the soundness bound and every adversarial proof for Count/GF(17); (b) a menu of invalid encodings (non-bits at boundary positions, bit flips, affine-preserving near misses; all of F^n for tiny instances) is sharded with honestly computed proofs by Prio3<Raw<T>> for honest Prio3<T> aggregators over 2..5 aggregators, 1..3 proofs and a key/nonce tape alphabet, and the outcome is compared with the decision the specification prescribes for the randomness derived by an independent transcription of the draft; (c) every byte of the public share, each input share, each verifier share and the verifier message x an alteration alphabet (all 8 bit flips, +-1, 0, 0xff; every byte value over 1-byte fields), pairs of alterations, and dropped/duplicated/reordered/substituted/zeroed verifier shares: some aggregator must fail, and whenever all finish the outputs must sum to the truncation of a valid encoding. (d) every named constructor (serial and multithreaded, pairwise distinct parameters) x out-of-range measurements: whatever is sharded, verified by all aggregators and aggregated must be a valid measurement for the requested parameters.",
+   text="(a) every invalid input x every randomness over GF(17) with exact acceptance counts vs the soundness bound and every adversarial proof for Count/GF(17); (b) a menu of invalid encodings (non-bits at boundary positions, bit flips, affine-preserving near misses; all of F^n for tiny instances) is sharded with honestly computed proofs by Prio3<Raw<T>> for honest Prio3<T> aggregators over 2..5 aggregators, 1..3 proofs and a key/nonce tape alphabet, and the outcome is compared with the decision the specification prescribes for the randomness derived by an independent transcription of the draft; (c) every byte of the public share, each input share, each verifier share and the verifier message x an alteration alphabet (all 8 bit flips, +-1, 0, 0xff; every byte value over 1-byte fields), pairs of alterations, and dropped/duplicated/reordered/substituted/zeroed verifier shares: some aggregator must fail, and whenever all finish the outputs must sum to the truncation of a valid encoding. (c') every message lengthened by 1 byte / one element / one seed (zeros, 0xA5, a copy of its tail) or shortened: verification must not complete everywhere. (d) every named constructor (serial and multithreaded, pairwise distinct parameters) x out-of-range measurements: whatever is sharded, verified by all aggregators and aggregated must be a valid measurement for the requested parameters.",
    note="Deployed fields: a passing invalid encoding / single-byte alteration has probability ~2^-57 per case and is treated as a violation. The (b) predictor uses the library FLP on the whole input (decided independently by C05). Adversarial proofs are exhaustive for Count/GF(17) only.",
    design="§2 C02")
 
@@ -85,7 +85,7 @@ CHECKS["C06"] = dict(level="model_checking", engine="bfs",
 
 CHECKS["C04"] = dict(level="fault_enumeration", engine="sweep",
    technique="fault enumeration on the real Poplar1 verification: malicious-client strategies assembled from public parts (real IDPF gen with arbitrary programmed values + transcribed correlated randomness) and byte-level tamper enumeration of every message of both rounds",
-   text="(a) Reports are built from public parts only: the real Idpf key generation programmed with data beta in {0,1,2,-1,3} and authenticator in {k*beta, k, 0, k+1} at one level, correlated randomness (A=-2a+k, B=a^2+b-ak+c) derived by a harness transcription honestly for the cheating value or perturbed at one level, input shares assembled through the wire format; every input x every aggregation parameter (bits<=3; on-path/sibling sets for 8 bits) x key tapes is verified by both aggregators. (b) For honest reports every byte of the public share (every value of the packed control bits), both input shares, both rounds of verifier shares and both verifier messages is altered over an alphabet. Oracle: whenever both aggregators finish, the output shares sum to the zero vector or a one-hot vector with value one; strategies the sketch cannot admit are rejected whenever the on-path candidate is queried; the harness's own honest and all-zero crafted reports must verify (conformance of the transcription). (c) Every cheating report is also combined with structural alterations of the sketch messages (emptied, shortened, zero-filled; one or both aggregators) and (e) with ill-shaped verifier shares handed to the combiner as objects (0..4 zeros, shortened, extended) in either round.",
+   text="(a) Reports are built from public parts only: the real Idpf key generation programmed with data beta in {0,1,2,-1,3} and authenticator in {k*beta, k, 0, k+1} at one level, correlated randomness (A=-2a+k, B=a^2+b-ak+c) derived by a harness transcription honestly for the cheating value or perturbed at one level, input shares assembled through the wire format; every input x every aggregation parameter (bits<=3; on-path/sibling sets for 8 bits) x key tapes is verified by both aggregators. (b) For honest reports every byte of the public share (every value of the packed control bits), both input shares, both rounds of verifier shares and both verifier messages is altered over an alphabet. Oracle: whenever both aggregators finish, the output shares sum to the zero vector or a one-hot vector with value one; strategies the sketch cannot admit are rejected whenever the on-path candidate is queried; the harness's own honest and all-zero crafted reports must verify (conformance of the transcription). (c) Every cheating report is also combined with structural alterations of the sketch messages (emptied, shortened, zero-filled; one or both aggregators) and (e) with ill-shaped verifier shares handed to the combiner as objects (0..4 zeros, shortened, extended) in either round; (b') length alterations of every message; (f) for both shipped XOF instantiations (32-byte TurboSHAKE128 and Poplar1<XofFixedKeyAes128,16>) the value correction word of the queried level shifted by 1, 5, -1 after honest sharding with EVERY prefix of the level (16/32/64) as candidate.",
    note="Verification keys are a fixed alphabet (a cheat passing by chance: <= 2/2^64 per key at inner levels). Two simultaneous non-zero candidates are reachable only through tampering (the IDPF is a point function), which layer (b) enumerates at byte level.",
    design="§2 C04")
 
@@ -101,7 +101,7 @@ CHECKS["C08"] = dict(level="fault_enumeration", engine="sweep",
    design="§2 C08")
 CHECKS["C13"] = dict(level="model_checking", engine="bfs",
    technique="explicit-state BFS over the aggregation state space (multiset of partial aggregates tagged with the subset they cover) with the real aggregate_init/accumulate/merge/aggregate/unshard as transition function, vs subset sums on residues",
-   text="For 42 instances (Prio3 Count/SumVec/Histogram over deployed and small fields, Prio2, Poplar1 inner and leaf incl. colliding level bytes and the longest inputs: 65536 bits at levels 65535/65534) and share tuples from extreme values (all residues over GF(17)/GF(97)), every order and tree shape of aggregate_init / From / accumulate / merge is explored; in every state each aggregate must equal the reference sum of its subset, merging the empty aggregate changes nothing, every ill-shaped operand (every wrong length, Inner/Leaf mix, both directions) must be refused leaving the accumulator byte-identical, one-shot aggregate over every permutation and unshard over terminal aggregates equal the single pass. Large batches (8..1024 shares, 4099 thorough) through the batch entry point equal the reference sum, the accumulate chain and merged sub-batches of 7/32/100.",
+   text="For 42 instances (Prio3 Count/SumVec/Histogram over deployed and small fields, Prio2, Poplar1 inner and leaf incl. colliding level bytes and the longest inputs: 65536 bits at levels 65535/65534) and share tuples from extreme values (all residues over GF(17)/GF(97)), every order and tree shape of aggregate_init / From / accumulate / merge is explored; in every state each aggregate must equal the reference sum of its subset, merging the empty aggregate changes nothing, every ill-shaped operand (every wrong length, Inner/Leaf mix, both directions) must be refused leaving the accumulator byte-identical, one-shot aggregate over every permutation and unshard over terminal aggregates equal the single pass. Large batches (8..1024 shares, 4099 thorough) through the batch entry point equal the reference sum, the accumulate chain and merged sub-batches of 7/32/100; unshard refuses aggregate shares that agree with each other but not with the aggregation parameter.",
    note="k <= 5 shares with unrestricted tree shapes (6-7 with at most two live aggregates); deployed fields on extreme residues only; state deduplication assumes equal kind+encoding imply equal futures.",
    design="§2 C13")
 CHECKS["C15"] = dict(level="model_checking", engine="choices",
